@@ -507,10 +507,12 @@ def fnStr (f : FId) (obj : FnObj) : String :=
   | .codec _ _ _ => "<바이트열 부/복호화  함수>"
   | .bmod path => "<기본 제공 모듈 ㅂ " ++ " ".intercalate (path.map (fun n => jamoOfDigits (encodeNumber n))) ++ ">"
 
-/-- insertion into a list sorted by the first component (stable) -/
+/-- insertion into a list sorted by the first component: *before* the entries whose key is not smaller.  `sortByKey`
+inserts the entries last to first, so entries with equal printed keys (two functions, say) keep their insertion
+order, as Python's stable `sorted` does. -/
 def insertByKey (p : String × String) : List (String × String) → List (String × String)
   | [] => [p]
-  | q :: r => if p.1 < q.1 then p :: q :: r else q :: insertByKey p r
+  | q :: r => if q.1 < p.1 then q :: insertByKey p r else p :: q :: r
 
 def sortByKey (l : List (String × String)) : List (String × String) :=
   l.reverse.foldl (fun acc p => insertByKey p acc) []
